@@ -185,3 +185,38 @@ Fixpoint cenc (c : ctree) : list N :=
       be4 (8 + lenN body) ++ nm ++ body
   end.
 Fixpoint cencs (l : list ctree) : list N := match l with [] => [] | k :: r => cenc k ++ cencs r end.
+
+(* ------------------------------------------------------------------ the two file loops at byte level *)
+(* mp4/boxsr.go DecodeFileSR: `if sr.NrRemainingBytes() == 0 { break }; box, err = DecodeBoxSR(boxStartPos, sr)`;
+   mp4/file.go DecodeFile: `box, err = DecodeBox(boxStartPos, r); if err == io.EOF { break }`;
+   both: boxStartPos += box.Size().  The per-box assembly (AddChild ...) is the shape model above. *)
+From V.c04 Require Import C04Model.
+
+Fixpoint file_boxes_sr (ld : leafdec) (fuel : nat) (pos : N) (acc : list tree) (s : sst) : res (list tree) * sst :=
+  match fuel with
+  | O => (OutOfFuel, s)
+  | S f =>
+      if (nr_remaining (sr s) =? 0)%Z then (Ok (rev acc), s)
+      else
+        match dec_box_sr ld f pos s with
+        | (Ok t, s1) => file_boxes_sr ld f (addu64 pos (tsize t)) (t :: acc) s1
+        | (Err, s1) => (Err, s1) | (Panic, s1) => (Panic, s1) | (OutOfFuel, s1) => (OutOfFuel, s1)
+        end
+  end.
+
+Fixpoint file_boxes_r (ld : leafdec) (fuel : nat) (pos : N) (acc : list tree) (s : ist) : res (list tree) * ist :=
+  match fuel with
+  | O => (OutOfFuel, s)
+  | S f =>
+      match dec_box_r ld f pos s with
+      | (Ok BEof, s1) => (Ok (rev acc), s1)
+      | (Ok (BBox t), s1) => file_boxes_r ld f (addu64 pos (tsize t)) (t :: acc) s1
+      | (Err, s1) => (Err, s1) | (Panic, s1) => (Panic, s1) | (OutOfFuel, s1) => (OutOfFuel, s1)
+      end
+  end.
+
+Definition file_sr (ld : leafdec) (bs : list N) : res (list tree) * sst :=
+  file_boxes_sr ld (S (S (length bs))) 0 [] (snew bs).
+Definition file_r (ld : leafdec) (bs : list N) : res (list tree) * ist :=
+  file_boxes_r ld (S (S (length bs))) 0 [] (inew bs).
+Open Scope N_scope.
